@@ -13,8 +13,11 @@ LEVEL_TEXT = ('static analysis by abstract interpretation of absolute_threshold 
               'whose row labels are not positions; the default thresholds are increasing and give 2 at log2 0 on a diploid autosome; (D2) cn1 + '
               'cn2 == cn as a term identity, cn1 is clipped into [0, cn], both are missing exactly where BAF is missing and cn > 0; (D3) one '
               'output slot per input row, no row dropped (row labels may repeat: masked cell stores go through the interpreted '
-              'GenomicArray.__setitem__); a table carrying its own baf column gets cn1 / cn2 also without a variants argument. Does not decide '
-              'where ceil(r*2^log2) crosses integers numerically.')
+              'GenomicArray.__setitem__); a table carrying its own baf column gets cn1 / cn2 also without a variants argument. (D1b) do_call '
+              'interpreted for method {threshold, clonal, none} x purity {absent, 1, 1/2} with the calling routines stubbed: with the threshold '
+              "method cn is what absolute_threshold returns for the caller's thresholds, ploidy and reference flag, on the purity-rescaled log2 "
+              'when purity < 1. Does not decide where ceil(r*2^log2) crosses integers numerically; threshold vectors with ties are outside the '
+              "property's quantifier.")
 TECHNIQUE = "abstract interpretation with order-position domain (log2 only compared against thresholds) and exact term identities"
 
 THR = "cnvlib.call.absolute_threshold"
@@ -225,6 +228,9 @@ def run(chk):
     d1b(chk, prog)
     d2(chk, prog)
     d3(chk, prog)
+    chk.clause("CLI", "the `call` command line: -t / --thresholds (parsed by csvstring, the default string included), -m and --purity reach do_call as given")
+    from .. import cliglue
+    cliglue.check_call(chk, prog)
 
 
 _C = "cnvlib/call.py"
